@@ -6,6 +6,7 @@ import Driver.PubProps
 import Driver.C18
 import Driver.C19
 import Driver.C08
+import Driver.C01
 open Lean
 
 def dispatch (p : String) (inp obs : Json) : Drv.Res :=
@@ -13,6 +14,7 @@ def dispatch (p : String) (inp obs : Json) : Drv.Res :=
   | "C13" => Drv.c13 inp obs
   | "C14" => Drv.c14 inp obs
   | "C12" => Drv.c12 inp obs
+  | "C01" => Drv.c01 inp obs
   | "C08" => Drv.c08 inp obs
   | "C18" => Drv.c18 inp obs
   | "C19" => Drv.c19 inp obs
